@@ -25,7 +25,7 @@ From Coq Require Import List NArith Bool.
 Import ListNotations.
 Local Open Scope N_scope.
 
-Definition node := N.
+Notation node := N (only parsing).
 
 (** route kinds: the three tables keyed by (key, origin) and the agent
     presence table keyed by (agent, origin, next hop) *)
@@ -401,13 +401,15 @@ Definition step (cf : config) (s : state) (o : op) : state * list msg * N :=
       match k with
       | KAgent => (s, [], 2)
       | _ =>
+        (* the metric parameter of AddLocal*Route is a uint16 *)
+        let mt := metric mod two16 in
         (update_node s n (fun ns =>
            let sq := ns_seq ns + 1 in
            {| ns_seq := sq;
-              ns_entries := add_entry n {| e_kind := k; e_id := id; e_origin := n; e_nexthop := n; e_metric := metric;
-                                           e_path := []; e_seq := sq; e_upd := st_now s; e_base := metric |} (ns_entries ns);
+              ns_entries := add_entry n {| e_kind := k; e_id := id; e_origin := n; e_nexthop := n; e_metric := mt;
+                                           e_path := []; e_seq := sq; e_upd := st_now s; e_base := mt |} (ns_entries ns);
               ns_seen := ns_seen ns;
-              ns_locals := upsert_local {| r_kind := k; r_id := id; r_metric := metric; r_base := metric |} (ns_locals ns) |}), [], 2)
+              ns_locals := upsert_local {| r_kind := k; r_id := id; r_metric := mt; r_base := mt |} (ns_locals ns) |}), [], 2)
       end
   | Cleanup n maxage =>
       (update_node s n (fun ns => {| ns_seq := ns_seq ns;
